@@ -183,8 +183,11 @@ void DiscoveryAgent::SendDiscovery() {
   if (m_uid_ranges.empty()) {
     // we're hit the end of the stack, now we're done
     if (m_on_complete) {
-      m_on_complete->Run(!m_tree_corrupt, m_uids);
+      // clear the pointer first (as Abort() does): the callback may call Abort()
+      // or start the next discovery
+      DiscoveryCompleteCallback *callback = m_on_complete;
       m_on_complete = NULL;
+      callback->Run(!m_tree_corrupt, m_uids);
     } else {
       OLA_WARN << "Discovery complete but no callback";
     }
